@@ -95,12 +95,12 @@ fn rec_read(_c: &ZXAyChip) -> u8 {
 }
 
 // @harness
-// @prop C07 C18
+// @prop C07 C18 C16
 // @tier quick
 // @features sound,ay
 // @timeout 1200
 // @fn ZXController::write_io (AY select and data arms); ZXController::read_io (AY arm); select_ay_reg; write_ay_port; read_ay_port
-// @sym machine, 16-bit port (all 65536), data, the byte the chip would answer; no joystick/mouse/extender; frame time fixed
+// @sym machine, 16-bit port (all 65536), data, the byte the chip would answer, AY sound generation switched on or off (ZXMixer::use_ay); no joystick/mouse/extender; frame time fixed
 // @assert an OUT to a port with A15=A14=1, A1=0 (and A0=1, so the ULA is not selected too) reaches the AY register-select and nothing else; A15=1, A14=0, A1=0 reaches the AY data write and nothing else; any other odd port reaches neither; an IN from the select/read-back address returns the chip's answer and from the data address does not; AY cycles never touch border or paging latch
 // @assume odd ports only (even ports select the ULA as well: two devices)
 // @bound one port write + one port read
@@ -126,6 +126,10 @@ fn c07_ay_port_decode() {
 fn ay_decode_case(m: crate::zx::machine::ZXMachine) {
     let mut c = ch::mk_controller(m, FbCtx { wx: 0, wy: 0 }, false, false);
     c.frame_clocks = 1000;
+    // whether the host has AY sound generation switched on is host-side state: the register file the CPU
+    // talks to must not depend on it (C16: the result does not depend on whether sound generation is enabled)
+    let ay_sound_on: bool = kani::any();
+    c.mixer.use_ay = ay_sound_on;
     unsafe {
         CHIP_NCALLS = 0;
         CHIP_READ_ANSWER = kani::any();
@@ -161,6 +165,7 @@ fn ay_decode_case(m: crate::zx::machine::ZXMachine) {
         }
     }
     kani::cover!(is_sel && port != 0xFFFD, "select through a partial-decode alias");
+    kani::cover!(is_data && !ay_sound_on, "data write with AY sound generation switched off");
     kani::cover!(is_data && port != 0xBFFD, "data write through a partial-decode alias");
     kani::cover!(!is_sel && !is_data && port & 0x8000 != 0, "A1 set: not an AY port");
 }
